@@ -816,5 +816,30 @@ where
             donors: vec![FIn::fe(vec![a2, c.clone()])],
         });
     }
+    // same integer, limb i lowered by 2^B and limb i+1 raised by one (out-of-range limb with a
+    // compensating neighbour); and the honest limbs with the top limb raised by 2^(its bit bound)
+    let z = match w {
+        Wrap::Mul => (&a * &c) % &m,
+        Wrap::Add => (&a + &c) % &m,
+        Wrap::Div => {
+            if c.is_zero() {
+                return out;
+            }
+            (&a * inv(&c)) % &m
+        }
+    };
+    let honest = encode_fe::<K>(&z);
+    let lb = log2_base::<K>();
+    let n = nb_limbs::<K>();
+    for i in [0, n - 2] {
+        let mut f = honest.clone();
+        f[i] -= super::ffield::f_of_big(&(BigUint::one() << lb));
+        f[i + 1] += F::from(1u64);
+        out.push(AttackSpec {
+            label: format!("limb-carry[{i}]"),
+            forged: Some(f),
+            donors: vec![],
+        });
+    }
     out
 }
